@@ -3,6 +3,8 @@ structural path conditions (guards), and bounded inlining of crate-local callees
 
 Terms are nested tuples; `show` renders them canonically. Events are what rules match on.
 """
+import re
+
 import hir as H
 
 ERASE = tuple(H.strip_generics(e) for e in H.ERASE_METHODS)
@@ -320,7 +322,69 @@ class Evaluator(object):
                 st = show(stt)
                 pats = ' | '.join(H.pat_term(e['arms'][i]['pat'], True) for i in live)
                 out.append(Guard((e['sp'], 'arms:' + ','.join(map(str, live)), 'match', st + ' ~ ' + pats, stt)))
+        elif k == 'Try':
+            out.extend(self.success_guards(H.peel(e['e']), env))
         return out
+
+    def success_guards(self, call, env):
+        """`helper(..)?` where helper is read through: the rest of the block runs only if the helper
+        returned Ok, i.e. under the negation of every guard under which it returns an error early."""
+        if call.get('k') not in ('Call', 'MethodCall'):
+            return []
+        cp = H.callee_path(call)
+        if cp is None:
+            return []
+        npath = norm_path(cp)
+        target = self.fns.get(npath)
+        if target is None or 'hir' not in target or target['hir'].get('k') != 'Block':
+            return []
+        if self.inline_filter is not None and not self.inline_filter(npath):
+            return []
+        if self.depth_limit <= 0:
+            return []
+        sub = Evaluator(self.fns, inline_depth=0)
+        args = [sub.eval(a, dict(env), [], None, []) for a in H.call_args(call)]
+        params = target.get('params', [])
+        if len(params) != len(args):
+            return []
+        cenv = {}
+        sub.mutated = dict(sub.mutated_locals(npath, target))
+        for prm, a in zip(params, args):
+            if prm.get('k') == 'Bind' and a is not None and a[0] == 'var':
+                sub.mutated.pop(prm['id'], None)
+            sub.bind_pat(prm, a, cenv)
+        out = []
+        for st in target['hir']['stmts']:
+            sk = st['k']
+            if sk == 'Let':
+                val = sub.eval(st['init'], cenv, [], None, []) if st.get('init') is not None else None
+                sub.bind_pat(st['pat'], val, cenv)
+                continue
+            if sk not in ('Semi', 'ExprStmt'):
+                continue
+            x = st['e']
+            if x.get('k') == 'If' and x.get('else') is None and x['cond'].get('k') != 'LetExpr' and self.returns_error(x['then'], sub, cenv):
+                ctt = sub.eval(x['cond'], dict(cenv), [], None, [])
+                out.append(Guard((x['sp'], 'else', 'if', show(ctt), ctt)))
+            elif any(n.get('k') in ('Assign', 'AssignOp') for n in H.walk(x)):
+                break  # state changes: later conditions would be read against a different state
+        return out
+
+    def returns_error(self, block, sub, env):
+        """the block ends in `return <error>` (Err(..) or a snafu fail())"""
+        b = block
+        last = None
+        if b.get('k') == 'Block':
+            if b.get('expr') is not None:
+                last = b['expr']
+            elif b['stmts'] and b['stmts'][-1]['k'] in ('Semi', 'ExprStmt'):
+                last = b['stmts'][-1]['e']
+        if last is None or last.get('k') != 'Ret' or last.get('e') is None:
+            return False
+        if len(b['stmts']) > (0 if b.get('expr') is not None else 1):
+            return False
+        t = show(sub.eval(last['e'], dict(env), [], None, []))
+        return t.startswith('Err(') or bool(re.match(r'^errors::\w+Snafu::fail\(', t))
 
     def block_diverges(self, b):
         if b.get('k') == 'Block':
@@ -361,6 +425,8 @@ class Evaluator(object):
         if k == 'Local':
             v = env.get(node['id'])
             return v if v is not None else ('var', node['name'], node['id'])
+        if k in ('Def', 'Call') and H.num_limit(node):
+            return ('path', H.num_limit(node))
         if k == 'Def':
             return ('path', norm_path(node.get('resolved') or node['path']))
         if k == 'Lit':
